@@ -1,4 +1,5 @@
 import NixModel.Basic
+import NixModel.Py.UuidText
 
 /-!
 # Model of `nixio/cmd/upgrade.py` (format upgrade of old NIX files)
@@ -149,21 +150,11 @@ inductive Step where
   | bump
   deriving DecidableEq, Repr
 
-/-! ## `nix.util.is_uuid` (`uuid.UUID(str)` acceptance) for the id strings the generators use -/
+/-! ## `nix.util.is_uuid`: `uuid.UUID(str)` acceptance, complete (`NixModel/Py/UuidText.lean`: `urn:` / `uuid:`
+removed, braces stripped, hyphens dropped, 32 characters that `int(text, 16)` accepts — blanks around, a sign, `0x`,
+single underscores between digits and non-ASCII decimal digits included) -/
 
-def isHex (c : Char) : Bool :=
-  ('0' ≤ c && c ≤ '9') || ('a' ≤ c && c ≤ 'f') || ('A' ≤ c && c ≤ 'F')
-
-def stripBraces (l : List Char) : List Char :=
-  ((l.dropWhile fun c => c == '{' || c == '}').reverse.dropWhile
-    fun c => c == '{' || c == '}').reverse
-
-/-- `hex.replace('urn:', '').replace('uuid:', '')`, `strip('{}')`, `replace('-', '')`, 32 hex digits.
-(`int(hex, 16)` also accepts blanks, underscores and a sign; such texts are outside the generators.) -/
-def isUuid (s : String) : Bool :=
-  let t := ((s.replace "urn:" "").replace "uuid:" "").toList
-  let h := (stripBraces t).filter (· != '-')
-  h.length == 32 && h.all isHex
+def isUuid (s : String) : Bool := Nix.Py.uuidAccepts s
 
 /-- `has_valid_file_id` (:13-18): `fileid and nix.util.is_uuid(fileid)` -/
 def hasValidId (f : File) : Bool :=
